@@ -159,9 +159,16 @@ fn tips_req<K: Kmer + Send + Sync>(a: &[&str]) -> String {
     show_nat_list(&CleanGraph::new(|n: &debruijn::graph::Node<K, u32>| n.len() < max_len).find_bad_nodes(&g))
 }
 
+fn iscomp_req<K: Kmer + Send + Sync>(a: &[&str]) -> String {
+    let g: DebruijnGraph<K, u32> = build_graph(a[2] == "1", a[4]);
+    let spec = parse_spec(a[3], "sum");
+    match g.is_compressed(&spec) { Some((i, j)) => format!("{},{}", i, j), None => "none".into() }
+}
+
 pub fn exec09(a: &[&str]) -> String {
     let k: usize = a[1].parse().unwrap();
     if a[0] == "tips" { return with_graph_kmer!(k, tips_req, a); }
+    if a[0] == "iscomp" { return with_graph_kmer!(k, iscomp_req, a); }
     with_graph_kmer!(k, recompress, a)
 }
 
@@ -235,6 +242,10 @@ pub fn gen09(rng: &mut Rng, tier: &str) -> String {
         return format!("C09 tips {} {} {} {}", k, stranded as u8, *rng.pick(&[k, k + 1, 2 * k, 3 * k, 1000]), nodes);
     }
     let (join, reduce) = if colour { ("eq", "first") } else { ("always", *rng.pick(&["sum", "max", "mix"])) };
+    if rng.chance(1, 8) {
+        // the crate's own maximality check, on graphs at all three compression levels
+        return format!("C09 iscomp {} {} {} {}", k, stranded as u8, join, nodes);
+    }
     format!("C09 recompress {} {} {} {} {} {} {}", k, stranded as u8, stranded as u8, join, reduce, show_nat_list(&censor), nodes)
 }
 
